@@ -63,20 +63,32 @@ def _job_worker(conn, cid, params, tier, seed, concrete, prop=None, sample=0, qu
                 if sub.error:
                     err = sub.error
                     break
+                sseed = seed * 1000003 + i + 15485863 * int(params.get("sample_part", 0))
                 new = [f for f in sub.failures if f.label not in ex.known_labels]
                 if new:
-                    fails = fails + [new[0].to_json()]
+                    fj = new[0].to_json()
+                    if i > 0:
+                        fj["prelude_sample"] = sseed - 1      # the run just before it in this process
+                    fails = fails + [fj]
                     break
                 for f in sub.failures:
                     if not any(x["label"] == f.label for x in fails):
-                        fails.append(f.to_json())
+                        fj = f.to_json()
+                        if i > 0:
+                            fj["prelude_sample"] = sseed - 1
+                        fails.append(fj)
             out = dict(failures=fails, error=err, obligations=obl, aborted=nab, sampled_runs=nrun, paths=0)
         elif concrete is not None:
             if concrete.get("prelude"):
                 # the exploration ran this path after others in one process: repeat one earlier run of the same harness
                 # (all-default inputs) first, so that state the code keeps between runs is present as it was
                 try:
-                    Explorer(ct.harness, params=p, seed=seed).run_concrete({}, [])
+                    if concrete.get("prelude_sample") is not None:
+                        from pvc.explore import Sampler
+                        Explorer(ct.harness, params=p, seed=seed).run_concrete(
+                            {}, [], sampler=Sampler(concrete["prelude_sample"], ct.budget.get("sample_max_mag")))
+                    else:
+                        Explorer(ct.harness, params=p, seed=seed).run_concrete({}, [])
                 except BaseException:  # noqa - not judged
                     pass
             sub = ex.run_concrete(concrete["inputs"], concrete["choices"])
@@ -381,7 +393,8 @@ def check_property(prop, tier="quick", seed=0, only=None, verbose=False, record_
 
     # native replay of every counter model (fresh processes, concrete mode)
     rj = [dict(cid=j["cid"], params=j["params"], tier=tier, seed=seed, prop=prop,
-               concrete=dict(inputs=f["inputs"], choices=f["choices"])) for j, f in replay_jobs if f["kind"] in ("sat", "concrete")]
+               concrete=dict(inputs=f["inputs"], choices=f["choices"], prelude_sample=f.get("prelude_sample")))
+          for j, f in replay_jobs if f["kind"] in ("sat", "concrete")]
     rres = run_jobs(rj, nproc, 300) if rj else []
     # a counter-model that does not reproduce in a fresh process may need what an earlier run of the same harness left behind
     # in the process (module-level caches, class attributes): second attempt after a prelude run
@@ -404,6 +417,7 @@ def check_property(prop, tier="quick", seed=0, only=None, verbose=False, record_
         rep = dict(property=prop, contract=cid, params=_jsonable(j["params"]), obligation=f["label"],
                    inputs=f["inputs"], choices=f["choices"], detail=f.get("detail"), solver=f["kind"],
                    model=f.get("model"), smt2=f.get("smt2"), tier=tier, seed=seed,
+                   prelude_sample=f.get("prelude_sample"),
                    native_replay=dict(confirmed=confirmed, needs_an_earlier_run_in_the_same_process=bool((rr or {}).get("after_prelude")),
                                       failures=(rr or {}).get("failures"), error=(rr or {}).get("error")),
                    targets=reg[cid].targets)
@@ -582,7 +596,7 @@ def _z3v():
 def replay_file(path):
     rep = json.load(open(path))
     j = dict(cid=rep["contract"], params=rep["params"], tier=rep.get("tier", "quick"), seed=rep.get("seed", 0), prop=rep.get("property"),
-             concrete=dict(inputs=rep["inputs"], choices=rep["choices"],
+             concrete=dict(inputs=rep["inputs"], choices=rep["choices"], prelude_sample=rep.get("prelude_sample"),
                            prelude=bool((rep.get("native_replay") or {}).get("needs_an_earlier_run_in_the_same_process"))))
     r = run_jobs([j], 1, 600)[0]
     print(json.dumps(dict(obligation=rep["obligation"], reproduced=bool(r.get("failures")), failures=r.get("failures"), error=r.get("error")), indent=1, default=str))
